@@ -14,7 +14,6 @@ from __future__ import annotations
 import importlib
 import math
 import os
-import traceback
 from fractions import Fraction
 
 from bitarray import bitarray
@@ -724,14 +723,18 @@ def _build_decoders():
 def _explicit_rejection(exc) -> bool:
     """The exception was raised on purpose: ValueError out of the enum machinery (an undefined element value), or an explicit
     raise / assert statement of library code (not an operation that happened to fail)."""
-    tb = traceback.extract_tb(exc.__traceback__)
-    if not tb:
+    import linecache
+
+    tb = exc.__traceback__
+    if tb is None:
         return False
-    last = tb[-1]
-    fn = os.path.realpath(last.filename)
+    while tb.tb_next is not None:  # plain walk (traceback.extract_tb computes column positions, which breaks on
+        tb = tb.tb_next  # Atheris-instrumented code objects)
+    code = tb.tb_frame.f_code
+    fn = os.path.realpath(code.co_filename)
     if isinstance(exc, ValueError):
-        return os.path.basename(fn) == "enum.py" or last.name == "_missing_"
-    line = (last.line or "").strip()
+        return os.path.basename(fn) == "enum.py" or code.co_name == "_missing_"
+    line = linecache.getline(code.co_filename, tb.tb_lineno).strip()
     return fn.startswith(REPO + os.sep) and (line.startswith("raise ") or line.startswith("assert ") or line.startswith("assert("))
 
 
